@@ -128,16 +128,40 @@ def run_unit(name, repo, scratch, with_canaries=True, jobs=8):
     tpl, cfg = UNITS[name]
     cfgs = {c: True for c in cfg.split(',') if c}
     t0 = time.time()
-    unit = vx.Unit(name, os.path.join(VERIF, tpl), repo, cfgs)
-    try:
-        text = unit.build()
-    except LostAnchor as e:
-        return dict(unit=name, status='inconclusive', reason='lost anchor: %s' % e, failures=[])
-    fname = 'unit_%s.rs' % name
-    path = os.path.join(scratch, fname)
-    open(path, 'w').write(text)
-    res = run_verus(path)
-    st, failures = classify(res, unit, fname)
+    drop = set()
+    for attempt in range(4):
+        unit = vx.Unit(name, os.path.join(VERIF, tpl), repo, cfgs)
+        unit.drop_hints = set(drop)
+        try:
+            text = unit.build()
+        except LostAnchor as e:
+            return dict(unit=name, status='inconclusive', reason='lost anchor: %s' % e, failures=[])
+        fname = 'unit_%s.rs' % name
+        path = os.path.join(scratch, fname)
+        open(path, 'w').write(text)
+        res = run_verus(path)
+        st, failures = classify(res, unit, fname)
+        if st['status'] != 'inconclusive' or res.get('timeout'):
+            break
+        # front-end error located in the proof hints / loop invariants of an extracted function
+        # (the body changed under them): retry without that function's hints
+        culprit = None
+        for d in res.get('diags', []):
+            if d.get('level') != 'error':
+                continue
+            for s_ in d.get('spans', []):
+                ln = s_.get('line_start', 0)
+                if 0 < ln <= len(unit.linemeta):
+                    meta = unit.linemeta[ln - 1]
+                    if meta.get('kind') in ('loopinv', 'proof', 'body') and meta.get('fn') and meta['fn'] not in drop:
+                        if meta['kind'] != 'body' or any(m2.get('kind') in ('loopinv', 'proof') and m2.get('fn') == meta['fn'] for m2 in unit.linemeta):
+                            culprit = meta['fn']
+                            break
+            if culprit:
+                break
+        if not culprit:
+            break
+        drop.add(culprit)
     result = dict(unit=name, checker_cmd=res.get('cmd'), wall=res.get('wall'), failures=[],
                   functions=unit.functions, rewrites=unit.rewrites, subs=unit.subs_applied,
                   trusted=vx.scan_trusted(text), canaries=[], gen_lines=len(unit.out))
